@@ -37,6 +37,16 @@ func TestOne(t *testing.T) {
 			plan.K.Debug = true
 		}
 		res := Execute(t, plan)
+		if len(res.Violations) > 0 && os.Getenv("SIM_NOGATE") == "" {
+			if re := Execute(t, plan); re.LogHash != res.LogHash {
+				fmt.Printf("NONDETERMINISM seed %d: %s\n", s, firstLogDiff(res.Log, re.Log))
+				for _, l := range res.Log {
+					fmt.Println("  A|", l)
+				}
+				sigs["NONDETERMINISM"]++
+				first["NONDETERMINISM"] = s
+			}
+		}
 		for _, v := range res.Violations {
 			sigs[v.Sig()]++
 			if _, ok := first[v.Sig()]; !ok {
